@@ -140,8 +140,9 @@ func (ro renderOpts) ws(sb *bytes.Buffer) {
 }
 
 func jsonString(s string, escape bool, rng *rand.Rand) string {
-	if escape && rng != nil && len(s) > 0 && rng.Intn(2) == 0 { // escaped spelling of the first character
-		return fmt.Sprintf("\"\\u%04x%s\"", s[0], s[1:])
+	if escape && rng != nil && len(s) > 0 && s[0] < 0x80 && rng.Intn(2) == 0 { // escaped spelling of the first character
+		rest, _ := json.Marshal(s[1:])
+		return fmt.Sprintf("\"\\u%04x%s", s[0], rest[1:])
 	}
 	b, _ := json.Marshal(s)
 	return string(b)
